@@ -155,6 +155,27 @@ func (z *zapGenerator) zapMarshalerGenerator(g Generator, spec compile.TypeSpec,
 	panic(root)
 }
 
+// zapperDeclared reports whether the Zap marshaler type with the given name
+// was declared by this generator already. Rendering the declaration renders
+// those of the nested types too: doing that again for every use of a type
+// takes time exponential in the nesting depth of types used more than once.
+func zapperDeclared(g Generator, name string) bool {
+	if gen, ok := g.(*generator); ok {
+		_, declared := gen.zappers[name]
+		return declared
+	}
+	return false
+}
+
+func markZapperDeclared(g Generator, name string) {
+	if gen, ok := g.(*generator); ok {
+		if gen.zappers == nil {
+			gen.zappers = make(map[string]struct{})
+		}
+		gen.zappers[name] = struct{}{}
+	}
+}
+
 // zapMarshalerPtr will dereference the pointer and call zapMarshal on it.
 func (z *zapGenerator) zapMarshalerPtr(g Generator, spec compile.TypeSpec, fieldValue string) (string, error) {
 	if isPrimitiveType(spec) {
